@@ -95,6 +95,16 @@ PINS = [
     ("autode/opt/coordinates/primitives.py", "PrimitiveDummyLinearAngle._evaluate"),
     ("autode/opt/coordinates/primitives.py", "LinearAngleBase._calc_linear_bend"),
     ("autode/opt/coordinates/primitives.py", "PrimitiveDihedralAngle._evaluate"),
+    # identity of primitives (PIC.add's duplicate check) and the extra-primitive constraint route
+    (_I, "PIC.__init__"), (_I, "PIC.append"), (_I, "PIC.__eq__"), (_I, "PIC.n_constrained"),
+    (_I, "InternalCoordinates.n_constraints"), (_I, "InternalCoordinates.constrained_primitives"),
+    ("autode/opt/coordinates/primitives.py", "Primitive.__init__"), ("autode/opt/coordinates/primitives.py", "Primitive._ordered_idxs"),
+    ("autode/opt/coordinates/primitives.py", "_DistanceFunction.__init__"), ("autode/opt/coordinates/primitives.py", "_DistanceFunction.__eq__"),
+    ("autode/opt/coordinates/primitives.py", "ConstrainedPrimitiveDistance.__init__"),
+    ("autode/opt/coordinates/primitives.py", "PrimitiveBondAngle.__eq__"), ("autode/opt/coordinates/primitives.py", "ConstrainedPrimitiveBondAngle.__eq__"),
+    ("autode/opt/coordinates/primitives.py", "PrimitiveDihedralAngle.__eq__"), ("autode/opt/coordinates/primitives.py", "LinearAngleBase.__eq__"),
+    ("autode/opt/coordinates/primitives.py", "CompositeBonds.__eq__"),
+    ("autode/opt/optimisers/crfo.py", "CRFOptimiser._build_internal_coordinates"),
 ]
 
 
@@ -110,7 +120,7 @@ def mol_of(spec):
                  charge=spec.get("charge", 0), mult=spec.get("mult", 1))
     if spec.get("bonds") is not None:
         make_graph(m, bond_list=[tuple(b) for b in spec["bonds"]])
-    if spec.get("constraints"):
+    if spec.get("constraints") and spec.get("route") != "extra":
         m.constraints.distance = {(int(i), int(j)): float(r) for i, j, r in spec["constraints"]}
     return m
 
@@ -296,6 +306,11 @@ def build(spec):
     from autode.opt.coordinates.internals import AnyPIC
     m = mol_of(spec)
     pic = AnyPIC.from_species(m)
+    if spec.get("route") == "extra" and spec.get("constraints"):
+        # the extra-primitive route of CRFOptimiser(extra_prims=[...]) / crfo.py:259-261: primitives.add(ic)
+        from autode.opt.coordinates.primitives import ConstrainedPrimitiveDistance
+        for i, j, r in spec["constraints"]:
+            pic.add(ConstrainedPrimitiveDistance(int(i), int(j), float(r)))
     x = CartesianCoordinates(m.coordinates)
     q = pic(x)
     B = pic.get_B(x)
@@ -305,6 +320,8 @@ def build(spec):
 def rep(spec, **kw):
     r = {"kind": kw.pop("kind"), "spec": {k: spec[k] for k in ("name", "cls", "symbols", "coords", "charge", "bonds") if k in spec}}
     r["spec"]["constraints"] = [list(c) for c in spec.get("constraints", [])]
+    if spec.get("route"):
+        r["spec"]["route"] = spec["route"]
     r.update(kw)
     return r
 
@@ -1334,7 +1351,7 @@ def oracle_constrained_gh(spec, seed):
     kf = rs.uniform(0.5, 1.5, size=(n_at, n_at)); kf = (kf + kf.T) / 2
     eps = rs.uniform(-0.05, 0.05, size=(n_at, n_at)); eps = (eps + eps.T) / 2
     try:
-        m = mol_of(spec); pic = AnyPIC.from_species(m); x = CartesianCoordinates(m.coordinates)
+        m, pic, x, _q, _B = build(spec)
         e0, gx, hx = pair_potential(xyz, r * (1 + eps), kf)
         x.e = e0; x.update_g_from_cart_g(gx); x.update_h_from_cart_h(hx)
         dic = DICWithConstraints.from_cartesian(x, pic)
@@ -1887,6 +1904,38 @@ def impl_oracles(ctx, full):
                 record(fs, "impl-stale", (kind, size, inplace))
                 ctx.count("impl-stale", ("fallback", kind, size, inplace))
                 ctx.hist("impl-stale", f"large-step {'converged' if conv else 'fallback' if conv is False else 'n/a'}")
+    # constraints supplied through the extra-primitive route (CRFOptimiser(extra_prims=...), PIC.add): on an existing bond
+    # and on a non-bonded pair, at the current value and displaced
+    for base in [m for m in base_molecules(full) if m["name"] in (("OO", "water2", "BF3-pyramidal", "CC#N") if not full else
+                                                                  ("OO", "water2", "BF3-pyramidal", "CC#N", "CCO", "allene", "C=O", "CH4-H2O"))]:
+        try:
+            gm = mol_of(base)
+            bonded = sorted((min(int(i), int(j)), max(int(i), int(j))) for i, j in gm.graph.edges)
+        except Exception:  # noqa
+            continue
+        xyz_b = np.array(base["coords"])
+        nonb = [(i, j) for i in range(len(xyz_b)) for j in range(i + 1, len(xyz_b)) if (i, j) not in bonded
+                and 1.5 < np.linalg.norm(xyz_b[i] - xyz_b[j]) < 4.0]
+        sets = []
+        if bonded:
+            i, j = bonded[0]
+            sets.append(("bond", [(i, j, round(float(np.linalg.norm(xyz_b[i] - xyz_b[j])) + 0.1, 6))]))
+        if nonb:
+            i, j = nonb[len(nonb) // 2]
+            sets.append(("non-bonded", [(i, j, round(float(np.linalg.norm(xyz_b[i] - xyz_b[j])), 6))]))
+        if bonded and nonb:
+            sets.append(("both", sets[0][1] + sets[1][1]))
+        for label, cons in sets:
+            s = dict(base); s["constraints"] = cons; s["route"] = "extra"; s["name"] = base["name"] + "+extra-" + label
+            ck = (s["name"],)
+            fs, info = guard("impl-extra-constraints", ck, lambda: oracle_primitives(s), ([], {}))
+            record(fs, "impl-extra-constraints", ck)
+            ctx.count("impl-extra-constraints", ck, sample={"molecule": s["name"], "constraints": [list(c) for c in cons]})
+            if "n_dic" in info:
+                fs2, ok = guard("impl-extra-constraints", ck + ("step",), lambda: oracle_step(s, rs.normal(size=info["n_dic"]).round(4).tolist(), 0.05), ([], None))
+                record(fs2, "impl-extra-constraints", ck + ("step",))
+                record(lambda: oracle_constrained_gh(s, 3), "impl-extra-constraints", ck + ("gh",))
+                ctx.count("impl-extra-constraints", ck + ("step",))
     # coordinate changes that bypass the OptCoordinates operators; constrained steps with a multiplier part
     for kind in ("cart", "dic"):
         for fam in NUMPY_OPS:
